@@ -12,6 +12,7 @@ import (
 	"path/filepath"
 	"regexp"
 	"sort"
+	"strconv"
 	"strings"
 	"time"
 
@@ -320,6 +321,19 @@ func runProperty(rc *runCtx, spec *property) int {
 			prog.Lazy = lz
 		}
 
+		remainingHarnesses, governed := 0, 0
+		for hi := range spec.Harnesses {
+			h := &spec.Harnesses[hi]
+			if (rc.only == "" || strings.Contains(h.Pkg+"/"+h.Name, rc.only)) && !(h.ThoroughOnly && rc.tier != "thorough") && h.Tolerant {
+				remainingHarnesses++
+			}
+		}
+		defer func() {
+			if governed > 0 {
+				rc.logf("time governor: %d harness(es) ran with a wall budget below the registered one (check deadline %.0fs)", governed, checkDeadline(rc))
+				ev.ExtraCoverage["harnesses_with_reduced_wall_budget"] = governed
+			}
+		}()
 		for hi := range spec.Harnesses {
 			h := &spec.Harnesses[hi]
 			if rc.only != "" && !strings.Contains(h.Pkg+"/"+h.Name, rc.only) {
@@ -348,6 +362,27 @@ func runProperty(rc *runCtx, spec *property) int {
 					nb[k] = v
 				}
 				bounds = nb
+			}
+			// time governor: budgeted (tolerant) harnesses share what is left of the check's
+			// deadline, so that a slower machine shortens explorations instead of overrunning
+			if w, ok := bounds["wall_s"]; ok && h.Tolerant && remainingHarnesses > 0 {
+				left := checkDeadline(rc) - time.Since(rc.start).Seconds()
+				fair := int(2 * left / float64(remainingHarnesses))
+				if fair < 2 {
+					fair = 2
+				}
+				if fair < w {
+					nb := map[string]int{}
+					for k, v := range bounds {
+						nb[k] = v
+					}
+					nb["wall_s"] = fair
+					bounds = nb
+					governed++
+				}
+			}
+			if h.Tolerant {
+				remainingHarnesses--
 			}
 			opts := interp.Options{Solver: h.Solver, Bounds: bounds, MaxPaths: h.MaxPaths, Workers: h.Workers, Verbose: rc.verbose, MaxViol: 400,
 				SampleModels: 4, MapOrder: h.MapOrder, Seed: rc.seed + 1}
@@ -819,4 +854,15 @@ func replayFile(rc *runCtx, path string) int {
 	}
 	fmt.Println("harness of replay file not found")
 	return 2
+}
+
+// checkDeadline: seconds a whole check may take (VERIF_DEADLINE_S overrides).
+func checkDeadline(rc *runCtx) float64 {
+	if v, err := strconv.Atoi(os.Getenv("VERIF_DEADLINE_S")); err == nil && v > 0 {
+		return float64(v)
+	}
+	if rc.tier == "thorough" {
+		return 5400
+	}
+	return 700
 }
